@@ -508,16 +508,16 @@ def rule_L1(ctx):
 def run(ctx):
     ctx.assume("sufficiency of the premises is the particle-Gibbs theorem (Andrieu, Doucet, Holenstein 2010), not decided here")
     ctx.assume("numpy Generator.multinomial / shuffle draw from the stated laws")
-    rule_W1(ctx)
-    rule_W2(ctx)
-    rule_W3(ctx)
-    rule_K1(ctx)
-    rule_K2(ctx)
-    rule_K3_R1(ctx)
-    rule_R2(ctx)
-    rule_S1(ctx)
-    rule_S2(ctx)
-    rule_L1(ctx)
+    ctx.soft(rule_W1)
+    ctx.soft(rule_W2)
+    ctx.soft(rule_W3)
+    ctx.soft(rule_K1)
+    ctx.soft(rule_K2)
+    ctx.soft(rule_K3_R1)
+    ctx.soft(rule_R2)
+    ctx.soft(rule_S1)
+    ctx.soft(rule_S2)
+    ctx.soft(rule_L1)
     # premises shared with C08 / C14 (same rule objects, reported under their own ids): the weight divides by
     # log_q, so log_p() must be the density sample() draws from; proposals / trees served from the caches must be
     # scored under the current concentration
